@@ -189,10 +189,16 @@ class CallMixin:
             env[p] = v
         if a.vararg is not None:
             env[a.vararg.arg] = TupleVal(pos[len(params):])
+        extra_kw = {}
         for k, v in kwargs.items():
             if k in env:
                 raise CheckerError('duplicate argument %s' % k)
-            env[k] = v
+            if a.kwarg is not None and k not in params and k not in [p.arg for p in a.kwonlyargs]:
+                extra_kw[k] = v
+            else:
+                env[k] = v
+        if a.kwarg is not None:
+            env[a.kwarg.arg] = LocalDict(extra_kw)
         defaults = dict(zip([p.arg for p in a.args][len(a.args) - len(a.defaults):], a.defaults))
         for p in params:
             if p not in env:
@@ -205,8 +211,14 @@ class CallMixin:
                 env[p.arg] = self.ev1(d, self.St(), frm)
         return env
 
+    REPO_MODELS = {'treadmill.fs:write_safe': 'model_write_safe'}
+
     def call_repo(self, st, fr, fv, args, kwargs):
         qual = fv.qual
+        if qual in self.REPO_MODELS and qual not in self.reg.contracts:
+            # a dependency of the code under contract that is modelled (engine_fs), not executed
+            self.stats['deps_used'].add(qual + ' (modelled)')
+            return getattr(self, self.REPO_MODELS[qual])(st, fr, args, kwargs)
         c = self.reg.contracts.get(qual)
         frm = self.Frame(fv.module, qual, fv.cls)
         frm.spec = True
@@ -414,9 +426,10 @@ class CallMixin:
         """modifies entries: 'expr.field' (one location) | ('Class.field', 'lambda r: pred') | 'alloc'."""
         for m in c.modifies:
             if m == 'fs':
-                from engine_fs import FS_KIND, FS_TDIR, FS_TNAME, AA
-                for key in (FS_KIND, FS_TDIR, FS_TNAME):
+                from engine_fs import FS_KIND, FS_TDIR, FS_TNAME, FS_CONTENT, FS_CTIME, AA, AAR
+                for key in (FS_KIND, FS_TDIR, FS_TNAME, FS_CONTENT):
                     st.heap[key] = z3.Const(fresh_name('fs'), z3.ArraySort(I, AA))
+                st.heap[FS_CTIME] = z3.Const(fresh_name('fsct'), z3.ArraySort(I, AAR))
                 continue
             if m == 'clock':
                 key = ('$clock', 0)
@@ -651,23 +664,12 @@ class CallMixin:
         cb = z3.substitute(body.z, *zip(allp, canon))
         key = (mode, cb.get_id())
         if key not in self.recfuncs:
-            F = z3.RecFunction(fresh_name({'sum': 'Sum', 'any': 'Any', 'all': 'All'}[mode]),
-                               *([c.sort() for c in canon] + [sort]))
-            idx = canon[0]
-            prev = z3.substitute(cb, (idx, idx - 1))
-            rec = F(idx - 1, *canon[1:])
-            if mode == 'sum':
-                zero = z3.IntVal(0) if sort == I else z3.RealVal(0)
-                dfn = z3.If(idx <= 0, zero, rec + prev)
-            elif mode == 'any':
-                dfn = z3.And(idx > 0, z3.Or(prev, rec))
-            else:
-                dfn = z3.Or(idx <= 0, z3.And(prev, rec))
-            z3.RecAddDefinition(F, canon, dfn)
-            self.recfuncs[key] = F
+            self.recfuncs[key] = define_range_fold(mode, canon, cb, sort)
             self._keep = getattr(self, '_keep', []) + [cb]
         F = self.recfuncs[key]
+        self.rec_used = True
         return SVal(body.kind, [F(n, *(actual_leaves + implicit))])
+
 
     def spec_sum_range(self, e, st, fr):
         return self.range_fold(e, st, fr, 'sum')
@@ -681,3 +683,56 @@ class CallMixin:
     def spec_ite(self, e, st, fr):
         c = truthy(self.ev1(e.args[0], st, fr))
         return ops.ite(c, self.ev1(e.args[1], st, fr), self.ev1(e.args[2], st, fr))
+
+# ---------------------------------------------------------------------------------------------------------------
+# Recursive spec functions over an index range.  `fuel` encoding (default): an uninterpreted function with a fuel
+# argument and two axioms -- F(S(f), n, p) == step(F(f, n-1, p)) and F(S(f), n, p) == F(f, n, p) -- so that a term
+# written with fuel 2 can be unfolded exactly twice and all fuels denote the same value.  This replaces z3's
+# define-fun-rec, whose open-ended unfolding made verdicts depend on the solver seed (DESIGN 0.9).
+import os as _os
+REC_AXIOMS = {}          # function name -> [axioms]; added to every query that mentions the function
+_FUEL = None
+
+
+def fuel_sort():
+    global _FUEL
+    if _FUEL is None:
+        d = z3.Datatype('Fuel')
+        d.declare('FZ')
+        d.declare('FS', ('pred', d))
+        _FUEL = d.create()
+    return _FUEL
+
+
+def define_range_fold(mode, canon, cb, sort):
+    name = fresh_name({'sum': 'Sum', 'any': 'Any', 'all': 'All'}[mode])
+    idx = canon[0]
+    prev = z3.substitute(cb, (idx, idx - 1))
+    if _os.environ.get('VERIF_RECFUN') == 'native':
+        F = z3.RecFunction(name, *([c.sort() for c in canon] + [sort]))
+        rec = F(idx - 1, *canon[1:])
+        if mode == 'sum':
+            zero = z3.IntVal(0) if sort == I else z3.RealVal(0)
+            dfn = z3.If(idx <= 0, zero, rec + prev)
+        elif mode == 'any':
+            dfn = z3.And(idx > 0, z3.Or(prev, rec))
+        else:
+            dfn = z3.Or(idx <= 0, z3.And(prev, rec))
+        z3.RecAddDefinition(F, canon, dfn)
+        return F
+    fs = fuel_sort()
+    G = z3.Function(name, fs, *([c.sort() for c in canon] + [sort]))
+    f = z3.Const('$fuel', fs)
+    lhs = G(fs.FS(f), *canon)
+    rec = G(f, idx - 1, *canon[1:])
+    if mode == 'sum':
+        zero = z3.IntVal(0) if sort == I else z3.RealVal(0)
+        dfn = z3.If(idx <= 0, zero, rec + prev)
+    elif mode == 'any':
+        dfn = z3.And(idx > 0, z3.Or(prev, rec))
+    else:
+        dfn = z3.Or(idx <= 0, z3.And(prev, rec))
+    REC_AXIOMS[name] = [z3.ForAll([f] + list(canon), lhs == dfn, patterns=[lhs]),
+                        z3.ForAll([f] + list(canon), lhs == G(f, *canon), patterns=[lhs])]
+    two = fs.FS(fs.FS(fs.FZ))
+    return lambda n, *args: G(two, n, *args)
